@@ -257,6 +257,26 @@ func (a *Activation) stdlibCall(st *State, callee *ssa.Function, cc *ssa.CallCom
 		mark()
 		g.trusted["sync.WaitGroup operations have no effect visible to the sequential code under verification"] = true
 		return Val{}, true
+	case "google.golang.org/protobuf/proto.Unmarshal":
+		// proto.Unmarshal(b, m): writes only the message m it is given (its fields become
+		// unconstrained), reads b, returns an arbitrary error
+		if len(cc.Args) == 2 {
+			if mi, ok := cc.Args[1].(*ssa.MakeInterface); ok {
+				if pt, ok := mi.X.Type().Underlying().(*types.Pointer); ok {
+					mark()
+					g.trusted["protobuf/raftpb Marshal/Unmarshal/Size: uninterpreted results; Unmarshal writes only its receiver; totality and allocation behaviour assumed"] = true
+					loc := a.val(st, mi.X).T
+					a.frameCheck(st, loc, pos)
+					a.havocLoc(st, loc, pt.Elem())
+					return a.havocValue(st, resT, "unmarshal"), true
+				}
+			}
+		}
+		return Val{}, false
+	case "google.golang.org/protobuf/proto.Marshal", "google.golang.org/protobuf/proto.Size":
+		mark()
+		g.trusted["protobuf/raftpb Marshal/Unmarshal/Size: uninterpreted results; Unmarshal writes only its receiver; totality and allocation behaviour assumed"] = true
+		return a.havocValue(st, resT, "marshal"), true
 	case "bufio.NewWriter", "bufio.NewWriterSize":
 		// a fresh buffered writer (its contents are not modelled)
 		mark()
@@ -338,6 +358,17 @@ func (a *Activation) stdlibCall(st *State, callee *ssa.Function, cc *ssa.CallCom
 				implies(and(not(eq(e, nilIface)), eq(av, bv64(0)), not(eq(sLen(buf), bv64(0)))), or(eq(e, eofC), not(isE(e, eofC)))),
 				implies(and(not(eq(e, eofC)), not(eq(e, ueofC))), and(not(isE(e, eofC)), not(isE(e, ueofC)))),
 				isE(eofC, eofC), isE(ueofC, ueofC), not(isE(eofC, ueofC)), not(isE(ueofC, eofC)), not(eq(eofC, ueofC))))
+			// an error coming out of a reader is not one of the program's own sentinel errors
+			var own []Term
+			for _, s := range g.sentinelNames {
+				if strings.Contains(s, mangle(modPath)) {
+					own = append(own, not(eq(e, T(SIface, s))))
+				}
+			}
+			if len(own) > 0 {
+				g.trusted["errors returned by io.ReadFull's underlying reader are never the program's own package-level sentinel errors"] = true
+				g.assume(st, and(own...))
+			}
 		}
 		st.heaps["Avail"] = sto(g.heap(st, "Avail"), r, bvop("bvsub", av, n))
 		a.frameRange(st, sArr(buf), sOff(buf), sLen(buf), pos)
